@@ -238,7 +238,8 @@ mutual
         | .ok vs => .ok (v :: vs)
 end
 
-def isVecType (ty : String) : Bool := ty.startsWith "std::vector<"
+/-- the declared type is a `std::vector<…>` (decided on character lists, so that it can be reasoned about) -/
+def isVecType (ty : String) : Bool := "std::vector<".toList.isPrefixOf ty.toList
 
 def Event.find (ev : Event D) (bank : String) : Option (String × Val D) :=
   let rec go : List (String × String × Val D) → Option (String × Val D)
